@@ -586,7 +586,11 @@ func (x *cInst) apply(op Op) (res callRes) {
 		switch op.K {
 		case "CL":
 			res.NA = true
-			x.c.AppendLambda(mkLambda(op.Typ, "n"), nodeOpts(op, false)...)
+			tag := "n"
+			if op.Key != "" {
+				tag = op.Key // a tag of its own (the chain's node key is node_N whatever it is)
+			}
+			x.c.AppendLambda(mkLambda(op.Typ, tag), nodeOpts(op, false)...)
 		case "CP":
 			res.NA = true
 			x.c.AppendPassthrough(nodeOpts(op, true)...)
